@@ -171,6 +171,9 @@ func vpCWDrawMode(t *rapid.T, mode int) []vpCWStep {
 		for i := 0; i < n; i++ {
 			g.ordinary(false, 0)
 		}
+		if rapid.IntRange(0, 2).Draw(t, "with_links") == 0 {
+			return vpCWPrepend(vpCWLinkPrefix(t, rapid.IntRange(0, 6).Draw(t, "link_target")), g.steps)
+		}
 		return g.steps
 	}
 	self := rapid.SampledFrom([]int{0, 0, vpCWJoin}).Draw(t, "self")
@@ -209,7 +212,47 @@ func vpCWDrawMode(t *rapid.T, mode int) []vpCWStep {
 		}
 	}
 	g.steps[0].Self = self
+	if rapid.IntRange(0, 2).Draw(t, "with_links") == 0 {
+		return vpCWPrepend(vpCWLinkPrefix(t, rapid.IntRange(0, 6).Draw(t, "link_target")), g.steps)
+	}
 	return g.steps
+}
+
+// vpCWLinkPrefix makes chain x close 1..2 rounds while 1..3 other chains start
+// rounds that reference them, so that the stored reference links are positive
+// and differ by direction.
+func vpCWLinkPrefix(t *rapid.T, x int) []vpCWStep {
+	var prefix []vpCWStep
+	dep := func(chain int, newRound bool, ext int) {
+		prefix = append(prefix, vpCWStep{Kind: "deposit", Chain: chain, Asset: 1, Owner: len(prefix) % 4, NewRound: newRound, Ext: ext,
+			Dt: uint64(rapid.IntRange(1, 900).Draw(t, "pdt_ms")) * uint64(time.Millisecond)})
+	}
+	for l, levels := 0, rapid.IntRange(1, 2).Draw(t, "levels"); l < levels; l++ {
+		dep(x, false, 0)
+		dep(x, true, (x+1+rapid.IntRange(0, 5).Draw(t, "xext"))%7)
+		for j, n := 0, rapid.IntRange(1, 3).Draw(t, "referrers"); j < n; j++ {
+			a := (x + 1 + rapid.IntRange(0, 5).Draw(t, "referrer")) % 7
+			dep(a, false, 0)
+			dep(a, true, x)
+		}
+	}
+	return prefix
+}
+
+// vpCWPrepend inserts prefix before a drawn workload (step indexes in Prev move).
+func vpCWPrepend(prefix, steps []vpCWStep) []vpCWStep {
+	out := append([]vpCWStep{}, prefix...)
+	for _, st := range steps {
+		switch st.Kind {
+		case "transfer", "custodian", "pledge", "accept":
+			st.Prev += len(prefix)
+		}
+		out = append(out, st)
+	}
+	if len(steps) > 0 && len(prefix) > 0 {
+		out[0].Self, out[len(prefix)].Self = steps[0].Self, 0
+	}
+	return out
 }
 
 func vpCWDraw(t *rapid.T, nodes int) []vpCWStep { return vpCWDrawMode(t, -1) }
@@ -458,7 +501,7 @@ func (r *vpCWRun) exec(i int) error {
 type vpCWCut struct {
 	K       int
 	Phase   string
-	Nested  bool // run another chain's step at the boundary before crashing
+	Nested  bool // run another chain's step at the boundary before call K (then crash there, or after call K returned when Phase is "after")
 	DropTmp bool // delete the non-synced cache database before restart
 }
 
@@ -534,6 +577,34 @@ func vpCWConsistency(k *vpKNode, written map[crypto.Hash]uint64) error {
 	if k.Node.TopoCounter.seq < maxPos {
 		return fmt.Errorf("restarted topology counter %d below stored maximum %d", k.Node.TopoCounter.seq, maxPos)
 	}
+	// the chain state the node works from is the one on disk: head round number
+	// and references, and every reference link it holds in memory
+	for _, id := range k.Net.NodeIds {
+		chain := k.Node.getOrCreateChain(id)
+		if chain == nil || chain.State == nil {
+			continue
+		}
+		head, err := store.ReadRound(id)
+		if err != nil || head == nil {
+			return fmt.Errorf("chain %s has state in memory but no stored head round (%v)", id, err)
+		}
+		if cr := chain.State.CacheRound; cr.Number != head.Number || cr.References.Self != head.References.Self || cr.References.External != head.References.External {
+			return fmt.Errorf("chain %s works from head round %d %v, the store has %d %v", id, cr.Number, *cr.References, head.Number, *head.References)
+		}
+		if chain.State.FinalRound.Number+1 != head.Number || chain.State.FinalRound.Hash != head.References.Self {
+			return fmt.Errorf("chain %s: final round %d %s in memory does not precede the stored head %d (self %s)", id, chain.State.FinalRound.Number, chain.State.FinalRound.Hash, head.Number, head.References.Self)
+		}
+		for _, oid := range k.Net.NodeIds {
+			l, held := chain.State.RoundLinks[oid]
+			if !held {
+				continue
+			}
+			sl, err := store.ReadLink(id, oid)
+			if err != nil || sl != l {
+				return fmt.Errorf("chain %s holds link %d to chain %s, the store has %d (%v)", id, l, oid, sl, err)
+			}
+		}
+	}
 	return nil
 }
 
@@ -553,6 +624,7 @@ type vpCWOutcome struct {
 	Err21      error
 	Chains     int
 	Log        []string
+	NestedRan  bool // another chain finalized a snapshot at the boundary before call K
 }
 
 // vpCWRunCut replays the workload from genesis, crashes at cut (nil = no
@@ -571,19 +643,29 @@ func vpCWRunCut(net *vpKNet, steps []vpCWStep, cut *vpCWCut) (out vpCWOutcome) {
 		if !armed || inNested || cut == nil {
 			return
 		}
-		if k == cut.K && phase == cut.Phase {
-			if cut.Nested && phase == "before" && name != "WriteSnapshot" {
-				// what another chain's goroutine may do at this boundary
-				for j := cur + 1; j < len(steps); j++ {
-					if steps[j].Kind == "deposit" && steps[j].Jump == 0 && run.snapOf[j] == nil &&
-						run.pickChain(steps[j].Chain, run.clock+steps[j].Dt) != run.chainOf[cur] {
-						inNested = true
-						vpKCatch(func() { _ = run.exec(j) })
-						inNested = false
-						break
-					}
+		if k == cut.K && cut.Nested && phase == "before" {
+			// What another chain's goroutine may do at this boundary: finalize a
+			// snapshot of its own. While a snapshot is being written the kernel
+			// holds the topology lock, which every finalization needs, so that
+			// schedule exists at a WriteSnapshot boundary only if the lock is free
+			// there (it never is on a tree that writes under the lock).
+			feasible := name != "WriteSnapshot"
+			if !feasible && run.k.Node.TopoCounter.TryLock() {
+				run.k.Node.TopoCounter.Unlock()
+				feasible = true
+			}
+			for j := cur + 1; feasible && j < len(steps); j++ {
+				if steps[j].Kind == "deposit" && steps[j].Jump == 0 && run.snapOf[j] == nil &&
+					run.pickChain(steps[j].Chain, run.clock+steps[j].Dt) != run.chainOf[cur] {
+					inNested = true
+					vpKCatch(func() { _ = run.exec(j) })
+					inNested = false
+					out.NestedRan = true
+					break
 				}
 			}
+		}
+		if k == cut.K && phase == cut.Phase {
 			panic(vpKCrash{K: k, Name: name, Phase: phase})
 		}
 	}
@@ -856,11 +938,11 @@ func vpCWConsWindows(net *vpKNet, steps []vpCWStep) (calls int, windows [][2]int
 // falls into the known finding C21-F5: strictly after the consensus snapshot
 // was written and not after its consensus marker write.
 func vpCWInKnownWindow(windows [][2]int, cut *vpCWCut) bool {
-	if !cut.Nested || cut.Phase != "before" {
+	if !cut.Nested {
 		return false
 	}
 	for _, w := range windows {
-		if cut.K > w[0] && cut.K <= w[1] {
+		if cut.K > w[0] && (cut.K < w[1] || cut.K == w[1] && cut.Phase == "before") {
 			return true
 		}
 	}
@@ -893,13 +975,16 @@ func vpCWCuts(t *rapid.T, plan *vpCWPlan, steps []vpCWStep, n int) []*vpCWCut {
 				cuts = append(cuts, &vpCWCut{K: k, Phase: ph, DropTmp: (k+len(ph))%3 == 0})
 			}
 			cuts = append(cuts, &vpCWCut{K: k, Phase: "before", Nested: true})
+			if plan.Log[k-1] == "WriteSnapshot" {
+				cuts = append(cuts, &vpCWCut{K: k, Phase: "after", Nested: true})
+			}
 		}
 		return cuts
 	}
 	draw := func(k int) *vpCWCut {
 		c := &vpCWCut{K: k, Phase: rapid.SampledFrom([]string{"before", "after"}).Draw(t, "cut_phase"),
 			DropTmp: rapid.IntRange(0, 3).Draw(t, "drop_cache") == 0}
-		if c.Phase == "before" {
+		if c.Phase == "before" || plan.Log[k-1] == "WriteSnapshot" {
 			c.Nested = rapid.IntRange(0, 2).Draw(t, "nested") == 0
 		}
 		return c
@@ -932,7 +1017,7 @@ func vpCWCuts(t *rapid.T, plan *vpCWPlan, steps []vpCWStep, n int) []*vpCWCut {
 		for i := rapid.IntRange(0, 1).Draw(t, "landmark_offset"); i < len(marks) && len(cuts) < n-2; i += 2 {
 			c := marks[i]
 			c.DropTmp = rapid.IntRange(0, 3).Draw(t, "drop_cache") == 0
-			if c.Phase == "before" && plan.Log[c.K-1] != "WriteSnapshot" {
+			if c.Phase == "before" && plan.Log[c.K-1] != "WriteSnapshot" || c.Phase == "after" && plan.Log[c.K-1] == "WriteSnapshot" {
 				c.Nested = rapid.IntRange(0, 2).Draw(t, "nested") == 0
 			}
 			cuts = append(cuts, c)
